@@ -60,6 +60,10 @@ impl IndexData {
 '''),
     Fn(HDR, 'type_as_u32', impl='impl IndexData', subs=[ret()],
        spec='    ensures r == ty_code(*self),'),
+    # not called by the writers on the pinned tree; under contract so that an edit that starts
+    # using it (instead of the parsed count) is judged rather than rejected
+    Fn(HDR, 'num_items', impl='impl IndexData', subs=[ret()],
+       spec='''    ensures *self is Null ==> r == 0, *self is StringTag ==> r == 1,'''),
     Raw('}\nimpl IndexHeader {\n'),
     Fn(HDR, 'write', impl='impl IndexHeader',
        subs=[('W: std::io::Write', 'W: VWrite', 1, R2), TO_BE, ret()],
@@ -190,6 +194,7 @@ pub fn canary_c14_sink<W: VWrite>(out: &mut W, b: &[u8])
 
 OBLIGATIONS = {
     'IndexData::type_as_u32': ['C01', 'C14', 'C03', 'C02', 'C10', 'C08'],
+    'IndexData::num_items': ['C01', 'C14'],
     'IndexHeader::write': ['C01', 'C14', 'C03', 'C02', 'C10', 'C08'],
     'IndexEntry::write_index': ['C01', 'C14', 'C03', 'C02', 'C10', 'C08'],
     'Header::write': ['C01', 'C14', 'C03', 'C02', 'C10', 'C08'],
